@@ -8,7 +8,8 @@ from ..rng import Rng
 ASSUMPTIONS = [
     "quiescence is decided by the in-flight counter of the verif hooks; schedules are the release orders of the parked queue (every order the stepped harness draws), "
     "not OS-level interleavings inside one exec",
-    "the reference interpretation covers the fragment without needs / mixed steps / several else branches; those shapes are decided by the monitor and the operational model only",
+    "the reference interpretation covers needs lists over condition branches of the same step; mixed steps, several else branches and needs lists that name waiting branches "
+    "(else / needs) are decided by the monitor and the operational model only",
     "timeouts are not generated here (C19); sub-processes and reloads have a small family of their own (a caller waiting for its child, a catch-revived step, dropped from the cache or restarted before the answer)",
 ]
 
@@ -204,7 +205,7 @@ def run(ctx):
                        "FIFO/LIFO/seeded-random release orders with partial releases, every interrupt answered in seeded order; monitor at every quiescent point; "
                        "non-trivial = some task was pending at a quiescent point; distinct by (model, op prefix)")
     ctx.cov["clauses_proved"] = ["Ref: unfinished => an unanswered interrupt is open (all workflows, conditions, answer sets)", "Ref: all answered => finished; done is monotone"]
-    ctx.cov["clauses_not_proved"] = ["the engine refines Ref (three-way differential at every quiescent point)", "needs / mixed / two-else shapes (monitor + Op model only)"]
+    ctx.cov["clauses_not_proved"] = ["the engine refines Ref (three-way differential at every quiescent point)", "mixed / two-else shapes and needs lists over waiting branches (monitor + Op model only)"]
 
 
 def reload_and_call_scenarios(seed, n):
